@@ -385,7 +385,7 @@ def readKind : Kind → Nat → Bool → Bytes → Res (Val × Bytes)
   | .natural _, l, _, rest => readUintLoop 8 l rest
   | .time _, l, _, rest =>
       (readUintLoop 8 l rest).bind fun
-        | (.nat ms, r) => .ok (.nat (ms * 1000000 % 2 ^ 64), r) 0
+        | (.nat ms, r) => .ok (.nat (min ms 9223372036854 * 1000000), r) 0
         | x => .ok x 0
   | .fixedUint 1 _, _, _, rest =>
       -- `reader.ReadByte()` / `reader.Skip(1)`: the length is not looked at
